@@ -250,8 +250,10 @@ func (rl *Shell) historyCompletion(forward, filterLine, substring bool) {
 		}
 
 		if substring {
-			rl.completer.GenerateWith(completer)
+			// Enter the search mode first: outside of it, the only entry
+			// of a history would be inserted in the line before any search.
 			rl.completer.IsearchStart(rl.History.Name(), true, true)
+			rl.completer.GenerateWith(completer)
 		} else {
 			rl.startMenuComplete(completer)
 			rl.completer.AutocompleteForce()
